@@ -80,6 +80,28 @@ impl TorrentMaps {
         }
     }
 
+    /// Verification hook: (number of torrents stored, (seeders, peers) of
+    /// given torrent if it is stored)
+    #[cfg(feature = "verif")]
+    pub fn verif_counts(
+        &self,
+        info_hash: InfoHash,
+        ip_version: IpVersion,
+    ) -> (usize, Option<(usize, usize)>) {
+        let torrent_map = match ip_version {
+            IpVersion::V4 => &self.ipv4,
+            IpVersion::V6 => &self.ipv6,
+        };
+
+        (
+            torrent_map.torrents.len(),
+            torrent_map
+                .torrents
+                .get(&info_hash)
+                .map(|t| (t.num_seeders, t.peers.len())),
+        )
+    }
+
     #[cfg(feature = "metrics")]
     pub fn update_torrent_count_metrics(&self) {
         self.ipv4.update_torrent_gauge();
